@@ -55,6 +55,8 @@ def run(ctx: Ctx):
                     continue
                 nfiles += 1
                 ctx.nontrivial((rr["summary"]["idx"], len(rr["summary"]["qrys"]), mode, name))
+                for note in f.get("selection_notes", []):
+                    ctx.add_drift(1, {"input": rr["summary"]["idx"], "mode": mode, "file": name, "reader_with_selection": note})
                 n = len(f["records"])
                 if f.get("readback") != "ok":
                     ctx.violation({"input": rr["summary"]["idx"], "mode": mode, "file": name, "records": n,
